@@ -1,6 +1,7 @@
 package rules
 
 import (
+	"os"
 	"go/token"
 	"go/types"
 	"sort"
@@ -181,6 +182,11 @@ func c01Panics(c *Ctx) {
 			case boundsAudit[key] != "":
 				audited++
 				usedAudit[key] = true
+				auditDump(key, o.fp)
+				if want, ok := auditFP[key]; ok && want != o.fp {
+					r.Violate("bounds", key, p.Pos(o.pos), "this expression is in the audited table, but the values it uses are now computed differently from when it was read (fingerprint "+o.fp+", audited "+want+"): the audit no longer applies; "+o.reason)
+					continue
+				}
 				r.OK("bounds", key, p.Pos(o.pos), "audited: "+boundsAudit[key])
 			case movedAudit(fn, o.expr) != "":
 				audited++
@@ -316,6 +322,17 @@ func c01Recover(c *Ctx) {
 			r.OK("recover-barrier", name, p.FnPos(fn), "scanning loop runs under a deferred recover that sets the error result")
 		} else {
 			r.Violate("recover-barrier", name, p.FnPos(fn), "the scanning loop is not protected by a deferred recover(): a panic in the tokenizer escapes to the caller")
+		}
+	}
+}
+
+// auditDump (developer aid): with GOSQLX_SA_FPDUMP=<file> the fingerprints of all audited expressions are appended
+// to the file, from which bounds_audit_fp.go is regenerated after an audit.
+func auditDump(key, fp string) {
+	if path := os.Getenv("GOSQLX_SA_FPDUMP"); path != "" {
+		if f, err := os.OpenFile(path, os.O_APPEND|os.O_CREATE|os.O_WRONLY, 0o644); err == nil {
+			_, _ = f.WriteString(key + "\t" + fp + "\n")
+			_ = f.Close()
 		}
 	}
 }
